@@ -23,7 +23,8 @@ RULE = ('seeded generation: histories of 1..5 dumps into one SQLite table x mode
         'non-trivial = >=2 dumps and >=1 key overlapping an earlier dump (or a rewrite over existing rows)')
 ASSUMPTIONS = [
     'append into a table with a primary key: clashing keys are not generated (integrity error expected)',
-    'array/object values JSON-native; numbers compared at double precision (SQLite REAL); booleans as 0/1',
+    'array/object cells may hold dates / decimals: the table holds their JSON-native projection (ISO text, number), the '
+    'rows continuing downstream stay typed; numbers compared at double precision (SQLite REAL); booleans as 0/1',
     'the table schema is the same for every dump of a history',
 ]
 REQUIRED_COUNTERS = ['tables_compared', 'flags_compared']
